@@ -421,6 +421,12 @@ func (x *Exec) evalBinop(env *Env, e *Expr) (Val, error) {
 	if !ok1 || !ok2 {
 		return nil, fmt.Errorf("operands of %s are not terms (%T, %T) in %s", op, av, bv, e)
 	}
+	// integer literals compared / combined with reals are promoted
+	if a.Sort == SReal && b.Sort == SInt {
+		b = App("to_real", SReal, b)
+	} else if b.Sort == SReal && a.Sort == SInt {
+		a = App("to_real", SReal, a)
+	}
 	if a.Sort != b.Sort {
 		// Int/Real mixing
 		return nil, fmt.Errorf("sort mismatch %s vs %s in %s", a.Sort, b.Sort, e)
@@ -858,6 +864,11 @@ func (x *Exec) evalCall(env *Env, e *Expr) (Val, error) {
 			return nil, err
 		}
 		return bytesOfStr(args[0]), nil
+	case "real":
+		if err := need(1); err != nil {
+			return nil, err
+		}
+		return App("to_real", SReal, args[0]), nil
 	case "wrap64":
 		if err := need(1); err != nil {
 			return nil, err
